@@ -204,3 +204,7 @@ def median_of(v):
 
 def count(s, ch):
     return s.count(ch)
+
+
+def some(x):
+    return x
